@@ -248,6 +248,8 @@ __attribute__((noinline)) int vp_m_poll1(int interests, int timeout, flat_ec *e)
   reproc::process p;
   std::pair<int, std::error_code> r = p.poll(interests, reproc::milliseconds(timeout));
   set_ec(e, r.second);
+  // the object must still own its handle afterwards, whatever poll returned
+  (void) p.pid();
   return r.first;
 }
 
